@@ -11,6 +11,7 @@ process" have no model-level content beyond `run_changes_nothing` /
 tree): their content is in the tie, see design.d/C19.md.
 -/
 import OdmlModel.Model.Registry
+import OdmlModel.Model.TermLoad
 import OdmlModel.Proofs.Valid
 set_option linter.unusedSimpArgs false
 
@@ -326,5 +327,114 @@ example : Clean init sampleHistory := by unfold Clean; decide
 example : ∀ a ∈ sampleHistory, ¬ RegistersElsewhere (.custom 3) 1 a := by decide
 example : (runActs init sampleHistory).insts.length = 12 := by decide
 example : effective (runActs init sampleHistory) 1 .section = [.custom 3] := by decide
+
+end C19
+
+/-! ## 5. The on-demand terminology rules read the table of loaded terminologies (seeded round 5)
+
+`Model/TermLoad.lean`: `terminology.load` statement by statement.  A custom validation with
+`section_repository_present` / `property_terminology_check` is repeatable - in the same process, after
+any history of the loader, and in another process - because what a load yields is a function of the
+file alone, and a load that fails leaves nothing in the table. -/
+
+namespace C19
+open TermLoad
+
+theorem lookup_cons_self (t : Table) (url : Nat) (b : Bool) : lookup ((url, b) :: t) url = some b := by
+  simp [lookup, List.lookup]
+
+theorem lookup_cons_ne (t : Table) (url u : Nat) (b : Bool) (h : u ≠ url) :
+    lookup ((url, b) :: t) u = lookup t u := by
+  have : (u == url) = false := by simp [h]
+  simp [lookup, List.lookup, this]
+
+/-- A load that fails - the file cannot be fetched, or its links cannot be resolved - leaves the
+    table of loaded terminologies exactly as it was. -/
+theorem failed_load_leaves_no_trace (files : Nat → FileState) (t : Table) (url : Nat)
+    (h : files url = .unfinalizable ∨ files url = .unreachable) :
+    (load files t url).2 = t := by
+  unfold load
+  cases hl : lookup t url with
+  | some v => cases v <;> simp
+  | none => rcases h with h | h <;> simp [h]
+
+/-- Loading the same URL again yields what the first load has yielded, whatever the file is and
+    whatever the table held before: a rule that looks into a terminology sees the same on the second
+    run of a validation as on the first. -/
+theorem terminology_load_repeatable (files : Nat → FileState) (t : Table) (url : Nat) :
+    (load files (load files t url).2 url).1 = (load files t url).1 := by
+  unfold load
+  cases hl : lookup t url with
+  | some v => cases v <;> simp [hl]
+  | none =>
+    cases hf : files url <;> simp [hl, hf, lookup_cons_self]
+
+theorem load_consistent (files : Nat → FileState) (t : Table) (url : Nat)
+    (h : Consistent files t) : Consistent files (load files t url).2 := by
+  unfold load
+  cases hl : lookup t url with
+  | some v => cases v <;> simpa using h
+  | none =>
+    cases hf : files url
+    · simpa using h
+    · intro u v hu
+      by_cases hx : u = url
+      · subst hx; rw [lookup_cons_self] at hu; cases hu; exact Or.inr ⟨rfl, hf⟩
+      · rw [lookup_cons_ne _ _ _ _ hx] at hu; exact h u v hu
+    · simpa using h
+    · intro u v hu
+      by_cases hx : u = url
+      · subst hx; rw [lookup_cons_self] at hu; cases hu; exact Or.inl ⟨rfl, hf⟩
+      · rw [lookup_cons_ne _ _ _ _ hx] at hu; exact h u v hu
+
+theorem step_consistent (files : Nat → FileState) (t : Table) (o : Op)
+    (h : Consistent files t) : Consistent files (step files t o) := by
+  cases o with
+  | load url => exact load_consistent files t url h
+  | deferred url =>
+    simp only [step, deferredLoad]
+    split
+    · exact h
+    · exact load_consistent files t url h
+
+theorem run_consistent (files : Nat → FileState) (ops : List Op) : ∀ (t : Table),
+    Consistent files t → Consistent files (run files t ops) := by
+  induction ops with
+  | nil => intro t h; exact h
+  | cons o os ih => intro t h; exact ih _ (step_consistent files t o h)
+
+theorem load_of_consistent (files : Nat → FileState) (t : Table) (url : Nat)
+    (h : Consistent files t) : (load files t url).1 = outcomeOf (files url) := by
+  unfold load
+  cases hl : lookup t url with
+  | some v =>
+    rcases h url v hl with ⟨hv, hf⟩ | ⟨hv, hf⟩ <;> subst hv <;> simp [hf, outcomeOf]
+  | none => cases hf : files url <;> simp [outcomeOf]
+
+/-- What a load yields depends on the file alone, not on the history of the process: after any
+    sequence of loads and deferred loads of any URLs - successful, refused, failed - the URL loads as
+    it does in a process that has never loaded anything. -/
+theorem terminology_load_history_independent (files : Nat → FileState) (ops : List Op) (url : Nat) :
+    (load files (run files [] ops) url).1 = outcomeOf (files url) :=
+  load_of_consistent files _ url (run_consistent files ops [] (by intro u v hu; simp [lookup] at hu))
+
+/-- The two on-demand rules report the same on the same unchanged Section / Property after any two
+    histories of the loader (in particular: first run and second run, this process and another). -/
+theorem terminology_rules_repeatable (files : Nat → FileState) (ops ops' : List Op) (url : Nat)
+    (hasType hasName : Bool) :
+    sectionWarnings (load files (run files [] ops) url).1 hasType =
+      sectionWarnings (load files (run files [] ops') url).1 hasType ∧
+    propertyWarnings (load files (run files [] ops) url).1 hasType hasName =
+      propertyWarnings (load files (run files [] ops') url).1 hasType hasName := by
+  simp [terminology_load_history_independent]
+
+/-- Witness that the statement has content: were the parsed document entered into the table before
+    its links are resolved (a table that is not `Consistent`), the second load would differ. -/
+theorem inconsistent_table_changes_outcome :
+    (load (fun _ => .unfinalizable) [(0, true)] 0).1 ≠ (load (fun _ => .unfinalizable) [] 0).1 := by
+  decide
+
+example : run (fun u => if u = 0 then .good else if u = 1 then .unparsable else .unfinalizable) []
+    [.load 0, .deferred 1, .load 2, .deferred 2, .load 1] = [(1, false), (0, true)] := by decide
 
 end C19
